@@ -184,7 +184,25 @@ def flat_cases(tier):
     return out
 
 
+PURE_URLS = ["http://is.gd/abcd", "https://is.example.com/some/page?id=3", "http://fr.a.com/p", "http://fr-be.com/p", "http://fr-be.a.com/p",
+             "http://a.com/p?hl=fr", "http://cl.ly/x", "http://cl.a.com/x", "http://www.facebook.com/p?gl=us", "http://tr.im/a", "http://tr.b.a.co.uk/a",
+             "HTTP://IS.GD/ABCD"]
+PURE_OPTS = [{}, {"strip_suffix": True}, {"platform_aware": True}, {"strip_suffix": True, "platform_aware": True}]
+
+
+def pure_labels():
+    return [{"url": u, "opts": o} for u in PURE_URLS for o in PURE_OPTS]
+
+
+def pure_thunk(label):
+    fu = importlib.import_module("ural").fingerprint_url
+    u, o = label["url"], label["opts"]
+    return lambda: core.call(fu, u, **o)
+
+
 def judge(w):
+    if "history" in w:
+        return core.judge_history(PROP + ".pure", w, pure_thunk)
     if "case" in w:
         g = the_grid("thorough")
         return evaluate(dict(g.default_case(), **w["case"]))[0]
@@ -199,6 +217,8 @@ def fails_fn(clause, w):
 
 
 def simplify(w):
+    if "history" in w:
+        return []
     if "case" in w:
         return the_grid("thorough").wsimplify(w)
     out = []
@@ -249,3 +269,6 @@ def run(chk):
     chk.sample(cases[0])
     chk.sample(cases[-1])
     core.reduce_failures(chk, flat_f, simplify, fails_fn)
+    chk.rule.append("H2: every ordered pair of %d fingerprint_url calls (two-label hosts starting with an ISO code, then the same label as a "
+                    "language subdomain, ...) from a reset module state." % len(pure_labels()))
+    core.explore_pairs(chk, PROP + ".pure", [(l, pure_thunk(l)) for l in pure_labels()])
